@@ -46,6 +46,11 @@ def check(prog, rep, tier):
             probs.append('%d write_msg call(s), expected %d' % (len(calls), want))
         if cond:
             probs.append('write_msg is conditional')
+        early = [n for n in ast.walk(f.node) if isinstance(n, (ast.Return, ast.Raise)) and calls and
+                 (n.lineno, n.col_offset) < (calls[0].lineno, calls[0].col_offset)]
+        if early and want:
+            probs.append('a path leaves the callback at line %d before write_msg is reached: that event is '
+                         'reported but no line is written' % early[0].lineno)
         for c in calls:
             kw = {k.arg: k.value for k in c.keywords}
             m = kw.get('msg')
@@ -220,6 +225,29 @@ def check(prog, rep, tier):
 
     # ---------------------------------------------------------------- R20.d / R20.e
     g = cls.find_method('get_last_seq_and_file')
+    # a record has no maximum length (one line per UPDATE, hundreds of prefixes): the last line must be found
+    # by reading the file, not by looking at a window of constant size
+    gpar = parents(g.node)
+    bounded = []
+    for n in ast.walk(g.node):
+        if isinstance(n, ast.Call) and isinstance(n.func, ast.Attribute) and \
+                n.func.attr in ('seek', 'read', 'readline', 'readlines', 'truncate') and \
+                not any(isinstance(p_, (ast.While, ast.For)) for p_ in ancestors(gpar, n, g.node)):
+            a0 = n.args[0] if n.args else None
+            if n.func.attr == 'seek' and a0 is not None and not (isinstance(a0, ast.Constant) and a0.value == 0
+                                                                 and len(n.args) == 1):
+                bounded.append(n)
+            elif n.func.attr != 'seek' and a0 is not None and not (isinstance(a0, ast.Constant) and a0.value in (-1, None)):
+                bounded.append(n)
+    if bounded:
+        n = bounded[0]
+        rep.bad('R20.d', 'recovery-window', file=g.file, line=n.lineno, func=g.qualname,
+                found='%s outside any loop: the last line is looked for in a window of fixed size, a longer last '
+                      'line is cut and the sequence number silently restarts' % src_of(n)[:60],
+                expected='scan the file (or search backwards in a loop) for the last complete line',
+                key='recovery-window')
+    else:
+        rep.ok('R20.d', 'recovery-window', file=g.file, line=g.node.lineno)
     exits = [n for n in ast.walk(g.node) if isinstance(n, ast.Call) and src_of(n.func) in ('sys.exit', 'exit', 'os._exit')]
     raises = []
     for t in [n for n in ast.walk(g.node) if isinstance(n, ast.Try)]:
